@@ -125,6 +125,21 @@ def account_vtable_struct(body, fields):
                     "template <class F> using optional_function_t = util::BasicVTable::optional_function_t<F, ProblemVTable>;",
                     "length_t n, m;", "ProblemVTable() = default;")):
                 raise OutOfGrammar("member of ProblemVTable outside the grammar: %r" % m_[:80])
+        # the members come in this order: config macro, the two aliases, the optional_function_t alias, the function-pointer fields, the
+        # static declarations, the dimensions, the constructor, the defaulted constructor — each fixed member exactly once
+        kind = lambda m_: ("field" if re.match(r"(required|optional)_function_t\s*<", m_) else "static" if m_.startswith("ALPAQA_EXPORT") else
+                           "ctor" if m_.startswith("template <class P>") or m_.startswith("template<class P>") else m_)
+        shape, prev = [], None
+        for m_ in members:
+            k_ = kind(m_)
+            if k_ != prev or k_ not in ("field", "static"):
+                shape.append(k_)
+            prev = k_
+        want_shape = ["USING_ALPAQA_CONFIG(Conf);", "using Sparsity = alpaqa::Sparsity<config_t>;", "using Box = alpaqa::Box<config_t>;",
+                      "template <class F> using optional_function_t = util::BasicVTable::optional_function_t<F, ProblemVTable>;",
+                      "field", "static", "length_t n, m;", "ctor", "ProblemVTable() = default;"]
+        if [" ".join(x.split()) for x in shape] != want_shape:
+            raise OutOfGrammar("members of ProblemVTable are not in the known order: %s" % [x[:30] for x in shape])
         if seen_fields != [f_["name"] for f_ in fields]:
             raise OutOfGrammar("function-pointer members of ProblemVTable: %s parsed, %s declared" % ([f_["name"] for f_ in fields], seen_fields))
         want = [CALC] + [f_["default"] for f_ in fields if not f_["required"]]
@@ -434,11 +449,27 @@ class P:
                 return e
 
 
+def always_leaves(stmts):
+    """does the statement list always end in return / throw?  A statement after a point that always leaves is out of grammar"""
+    for k, st in enumerate(stmts):
+        leaves = st[0] in ("return", "throw") or (st[0] == "if" and st[3] is not None and always_leaves(st[2]) and always_leaves(st[3]))
+        if st[0] == "if":
+            always_leaves(st[2]); always_leaves(st[3] or [])
+        if st[0] == "for":
+            always_leaves(st[3])
+        if leaves:
+            if k + 1 < len(stmts):
+                raise OutOfGrammar("statement after a return / throw (unreachable)")
+            return True
+    return False
+
+
 def parse_body(text):
     p = P(tokenize("{" + text + "}"))
     stmts = p.block()
     if p.peek()[0] != "eof":
         raise OutOfGrammar("trailing tokens after body")
+    always_leaves(stmts)
     return stmts
 
 
@@ -1110,9 +1141,10 @@ def account_casadi(tpp, loads, calls):
             else:
                 cur += ch
         ents = [e for e in ents + [cur] if e.strip()]
-        seen = []
+        seen, order = [], []
         for e in ents:
             e = " ".join(e.split())
+            order.append(re.match(r"\.(%s) =" % ID, e).group(1) if re.match(r"\.(%s) =" % ID, e) else e)
             lm = re.fullmatch(r"\.(%s) = (?:wrapped_load|try_load)<CasADiFunctionEvaluator<Conf, ?\d+, ?\d+>>\( ?loader, ?\"\w+\", ?dims\(.*\), ?dims\((.*)\)\)" % ID, e)
             if lm:
                 seen.append(lm.group(1))
@@ -1120,6 +1152,8 @@ def account_casadi(tpp, loads, calls):
                     raise OutOfGrammar("casadi load of %s: output dimensions %r" % (lm.group(1), lm.group(2)))
             elif e not in (".n = n", ".m = m", ".p = p", ".g = std::move(g)"):
                 raise OutOfGrammar("casadi: entry %r of the function table initialiser" % e[:60])
+        if order != CASADI_TABLE_ORDER:
+            raise OutOfGrammar("casadi: members initialised %s, known %s" % (order, CASADI_TABLE_ORDER))
         if seen != list(loads) or seen != list(CASADI_OUT_DIMS):
             raise OutOfGrammar("casadi: loads in the initialiser %s, parsed %s, known %s" % (seen, list(loads), list(CASADI_OUT_DIMS)))
         # a required function (wrapped_load) is called directly, an optional one (try_load) through the pointer after a guard
@@ -1169,6 +1203,9 @@ def account_casadi(tpp, loads, calls):
 # output dimensions of the loaded functions (not part of casadi_calls; fixed text, checked)
 CASADI_OUT_DIMS = {"f": "1", "f_grad_f": "1,n", "grad_g_prod": "n", "jac_g": "dim(m,n)", "grad_L": "n", "hess_L_prod": "n", "hess_L": "dim(n,n)",
                    "ψ": "1,m", "ψ_grad_ψ": "1,n", "hess_ψ_prod": "n", "hess_ψ": "dim(n,n)"}
+
+
+CASADI_TABLE_ORDER = ["n", "m", "p", "f", "f_grad_f", "g", "grad_g_prod", "jac_g", "grad_L", "hess_L_prod", "hess_L", "ψ", "ψ_grad_ψ", "hess_ψ_prod", "hess_ψ"]
 
 
 def parse_casadi(tpp, py):
